@@ -251,6 +251,36 @@ static void run_case(FILE *out, const Case &c, Shared *sh) {
   fflush(out);
 }
 
+// C18 on VALID streams: decoding a geometry of the same kind with 9 times as many elements must not need more than ~9 times the
+// memory (a side table sized by a PRODUCT of two declared counts would grow 81-fold).  Grids with regularly spaced holes (many
+// topology split symbols), plain grids, point clouds; measured with the allocation monitor of this harness.
+static uint64_t peak_of_valid_decode(const EncoderBuffer &eb, bool mesh) {
+  g_declared = 0; g_kd_dim = 0; g_live = 0; g_peak = 0; g_maxreq = 0; g_track = true;
+  { DecoderBuffer db; db.Init(eb.data(), eb.size()); Decoder d; if (mesh) { auto m = d.DecodeMeshFromBuffer(&db); (void)m; } else { auto p = d.DecodePointCloudFromBuffer(&db); (void)p; } }
+  g_track = false; return g_peak.load();
+}
+static void scaling_probe(FILE *out) {
+  auto grid = [](int n, int hole_every) { TriangleSoupMeshBuilder mb; std::vector<std::array<int, 3>> fs;
+    for (int y = 0; y < n; y++) for (int x = 0; x < n; x++) { if (hole_every && x % hole_every == 1 && y % hole_every == 1) continue; fs.push_back({y * (n + 1) + x, y * (n + 1) + x + 1, (y + 1) * (n + 1) + x + 1}); fs.push_back({y * (n + 1) + x, (y + 1) * (n + 1) + x + 1, (y + 1) * (n + 1) + x}); }
+    mb.Start((int)fs.size()); int pos = mb.AddAttribute(GeometryAttribute::POSITION, 3, DT_FLOAT32);
+    for (size_t f = 0; f < fs.size(); f++) { float P[3][3]; for (int k = 0; k < 3; k++) { P[k][0] = (float)(fs[f][k] % (n + 1)); P[k][1] = (float)(fs[f][k] / (n + 1)); P[k][2] = 0.01f * (float)((fs[f][k] * 7) % 13); } mb.SetAttributeValuesForFace(pos, FaceIndex((uint32_t)f), P[0], P[1], P[2]); }
+    return mb.Finalize(); };
+  struct K { const char *name; int hole; int method; int speed; } kinds[] = {{"edgebreaker grid with a hole every 4 quads", 4, MESH_EDGEBREAKER_ENCODING, 5}, {"edgebreaker grid with a hole every 3 quads (valence)", 3, MESH_EDGEBREAKER_ENCODING, 1},
+                                                                  {"edgebreaker plain grid", 0, MESH_EDGEBREAKER_ENCODING, 3}, {"sequential plain grid", 0, MESH_SEQUENTIAL_ENCODING, 5}};
+  for (auto &k : kinds) { uint64_t pk[2] = {0, 0}; size_t len[2] = {0, 0};
+    for (int big = 0; big < 2; big++) { auto m = grid(big ? 90 : 30, k.hole); if (!m) continue; Encoder enc; enc.SetEncodingMethod(k.method); enc.SetSpeedOptions(k.speed, k.speed); enc.SetAttributeQuantization(GeometryAttribute::POSITION, 11);
+      EncoderBuffer eb; if (!enc.EncodeMeshToBuffer(*m, &eb).ok()) continue; len[big] = eb.size(); pk[big] = peak_of_valid_decode(eb, true); }
+    if (pk[0] && pk[1]) { fprintf(out, "# SCALING %s: peak %llu bytes (stream %zu) -> %llu bytes (stream %zu) for 9x the elements\n", k.name, (unsigned long long)pk[0], len[0], (unsigned long long)pk[1], len[1]);
+      if (pk[1] > 14 * pk[0] + (1ull << 20)) fprintf(out, "! C18 decoder memory grows faster than linearly on valid streams (%s): peak %llu bytes for a 30x30 grid, %llu bytes for a 90x90 grid (9x the elements)\n", k.name, (unsigned long long)pk[0], (unsigned long long)pk[1]); } }
+  for (int method : {POINT_CLOUD_KD_TREE_ENCODING, POINT_CLOUD_SEQUENTIAL_ENCODING}) { uint64_t pk[2] = {0, 0};
+    for (int big = 0; big < 2; big++) { int n = big ? 9000 : 1000; PointCloudBuilder pb; pb.Start(n); int pos = pb.AddAttribute(GeometryAttribute::POSITION, 3, DT_FLOAT32);
+      for (int i = 0; i < n; i++) { float p[3] = {(float)((i * 37) % 101), (float)((i * 53) % 211) * 0.5f, (float)(i % 17)}; pb.SetAttributeValueForPoint(pos, PointIndex(i), p); }
+      auto pc = pb.Finalize(false); Encoder enc; enc.SetEncodingMethod(method); enc.SetSpeedOptions(3, 3); enc.SetAttributeQuantization(GeometryAttribute::POSITION, 11); EncoderBuffer eb; if (!pc || !enc.EncodePointCloudToBuffer(*pc, &eb).ok()) continue; pk[big] = peak_of_valid_decode(eb, false); }
+    if (pk[0] && pk[1]) { fprintf(out, "# SCALING point cloud method %d: peak %llu -> %llu bytes for 9x the points\n", method, (unsigned long long)pk[0], (unsigned long long)pk[1]);
+      if (pk[1] > 14 * pk[0] + (1ull << 20)) fprintf(out, "! C18 decoder memory grows faster than linearly on valid streams (point cloud method %d): %llu -> %llu bytes for 9x the points\n", method, (unsigned long long)pk[0], (unsigned long long)pk[1]); } }
+  fflush(out);
+}
+
 int main(int argc, char **argv) {
   if (argc < 4) { fprintf(stderr, "usage: h_dec quick|thorough seed out\n"); return 2; }
   if (!strcmp(argv[1], "one")) {   // replay: h_dec one <file with the hex bytes> <out>: the bytes through every entry point, each in a forked worker
@@ -314,6 +344,7 @@ int main(int argc, char **argv) {
   fprintf(out, "# h_dec tier=%s seed=%s streams=%zu (generated %zu, legacy %zu) cases=%zu distinct=%zu\n", argv[1], argv[2], streams.size(), ngen, streams.size() - ngen, cases.size(), hs.size());
   for (size_t i = 0; i < streams.size(); i += std::max<size_t>(1, streams.size() / 12)) fprintf(out, "# SAMPLE %s len=%zu\n", streams[i].label.c_str(), streams[i].bytes.size());
   fflush(out);
+  scaling_probe(out);
   Shared *sh = (Shared *)mmap(nullptr, sizeof(Shared), PROT_READ | PROT_WRITE, MAP_SHARED | MAP_ANONYMOUS, -1, 0);
   memset((void *)sh, 0, sizeof(Shared));
   long start = 0; int crashes = 0;
